@@ -2537,6 +2537,9 @@ namespace bloch::runtime {
                     throw BlochError(ErrorCategory::Runtime, bin->line, bin->column,
                                      "modulo by zero");
                 }
+                // x % -1 is 0; computing it directly traps for the most negative long.
+                if (rInt == -1)
+                    lInt = 0;
                 if (hasLong) {
                     Value v;
                     v.type = Value::Type::Long;
